@@ -41,6 +41,12 @@ STMTS = [
     ("call app%reset()", {"application%reset"}),
     ("associate (obj => app)\n    associate (obj => app%log)\n    call obj%reset()\n    end associate\n    end associate", {"logger%reset"}),
     ("associate (obj => app%log)\n    associate (obj => app)\n    call obj%reset()\n    end associate\n    call obj%reset()\n    end associate", {"application%reset", "logger%reset"}),
+    ("block\n    integer :: w(3)\n    w(1) = i\n    i = w(2) + int(f(y))\n    end block", {"f"}),
+    ("block\n    type :: lt\n    integer :: c(2)\n    end type lt\n    x = g(y)\n    end block", {"g"}),
+    ("sync images (n)", set()),
+    ("selectcase (h(i))\n    case (1)\n    x = 1\n    end select", {"h"}),
+    ("call app%log%write(f(x))", {"logger%write", "f"}),
+    ("n = app%log%size()", {"logger%size"}),
     ("print *, \"don't\"; call s(x)", {"s"}),
     ("print *, \"don't panic\"; y = len('usage: run; call p(x)')", set()),
     ("print *, 'a 3\" pipe'; x = f(y)", {"f"}),
@@ -56,8 +62,10 @@ def program(stmts):
     funcs += "  function h(v) result(r)\n    integer :: v, r\n    r = v\n  end function h\n"
     funcs += "  function p(v) result(r)\n    real :: v\n    logical :: r\n    r = .true.\n  end function p\n"
     funcs += "  subroutine s(v)\n    real, optional :: v\n  end subroutine s\n"
-    types = ("  type :: logger\n  contains\n    procedure :: reset\n    procedure :: emit\n    procedure :: level\n  end type logger\n"
+    types = ("  type :: logger\n  contains\n    procedure :: reset\n    procedure :: emit\n    procedure :: level\n    procedure :: write => log_write\n    procedure :: size => log_size\n  end type logger\n"
              "  type :: application\n    type(logger) :: log\n  contains\n    procedure :: reset => app_reset\n  end type application\n")
+    funcs += "  subroutine log_write(self, v)\n    class(logger) :: self\n    real :: v\n  end subroutine log_write\n"
+    funcs += "  function log_size(self) result(r)\n    class(logger) :: self\n    integer :: r\n    r = 0\n  end function log_size\n"
     funcs += "  subroutine app_reset(self)\n    class(application) :: self\n  end subroutine app_reset\n"
     funcs += "  subroutine reset(self)\n    class(logger) :: self\n  end subroutine reset\n"
     funcs += "  subroutine emit(self, v)\n    class(logger) :: self\n    real :: v\n  end subroutine emit\n"
